@@ -75,6 +75,58 @@ func checkC03(c *Ctx) {
 	c.c03Replies(m, t)
 	c.c03Greeting(m, t)
 	c.c03Index(m)
+	// one command line is one read: a reader primitive that hands out a long line in pieces
+	// must be re-assembled, or the tail of the line is executed as further commands
+	r.Rule("C03/LINE/whole", "the command-line read returns whole lines: textproto.Reader.ReadLine / bufio ReadString / ReadBytes, or bufio.Reader.ReadLine with its isPrefix result consulted (ReadSlice, which fails on long lines, is not accepted)")
+	{
+		n := 0
+		eng.EachInstr(m.readLine, func(in ssa.Instruction) {
+			call, ok := in.(*ssa.Call)
+			if !ok {
+				return
+			}
+			name := eng.CalleeName(call.Common())
+			cons := "line-read@" + shortFn(m.readLine)
+			switch name {
+			case "(*net/textproto.Reader).ReadLine", "(*net/textproto.Reader).ReadLineBytes", "(*bufio.Reader).ReadString", "(*bufio.Reader).ReadBytes":
+				n++
+				r.Ok("C03/LINE/whole", cons, c.P.InstrPos(in), "%s returns the whole line whatever its length", name)
+			case "(*bufio.Reader).ReadLine":
+				n++
+				used := false
+				if pre := extractOf(call, 1); pre != nil && pre.Referrers() != nil {
+					for _, ref := range *pre.Referrers() {
+						if _, isDbg := ref.(*ssa.DebugRef); !isDbg {
+							used = true
+						}
+					}
+				}
+				if used {
+					r.Ok("C03/LINE/whole", cons, c.P.InstrPos(in), "bufio.Reader.ReadLine with its isPrefix result consulted")
+				} else {
+					r.Bad("C03/LINE/whole", cons, c.P.InstrPos(in), "bufio.Reader.ReadLine returns at most one buffer (4096 bytes) per call and its isPrefix result is discarded: a longer command line is executed in pieces — the first piece as one command, every further piece of its argument as a command of its own, each with its own reply (a NOOP with a long argument can smuggle in RCPT or RSET)")
+				}
+			case "(*bufio.Reader).ReadSlice":
+				n++
+				r.Bad("C03/LINE/whole", cons, c.P.InstrPos(in), "bufio.Reader.ReadSlice fails with ErrBufferFull on a line longer than the buffer and leaves its tail to be read as the next command")
+			}
+		})
+		r.Floor("C03/LINE/whole", "line-reading calls in the command-line reader", n, 1)
+	}
+	// a failed producer's nil result is never used
+	r.Rule("C03/PANIC/nil-result", "in the SMTP session code every use of the value of a (value, error) call as a method receiver or field base — direct, deferred or through a helper — lies where the error is known nil")
+	{
+		nBad := 0
+		ordN := map[string]int{}
+		nProd := c.nilResultUses(m.fns, func(use ssa.Instruction, producer *ssa.Call, what string) {
+			nBad++
+			r.Bad("C03/PANIC/nil-result", siteCons(c.P, use, ordN, "use"), c.P.InstrPos(use), "the result of %s (%s) is used where the call may have failed: %s, and on failure the result is nil — the session goroutine panics and, having no recover, ends the server", eng.CalleeName(producer.Common()), c.P.InstrPos(producer), what)
+		})
+		if nBad == 0 {
+			r.Ok("C03/PANIC/nil-result", "session-code", c.P.Pos(m.root.Pos()), "%d (value, error) producers in the SMTP package; every receiver/field use of their value is on the err == nil side", nProd)
+		}
+		r.Floor("C03/PANIC/nil-result", "(value, error) producers in pkg/server/smtp", nProd, 1)
+	}
 	c.c01Atomic("C03/ATOMIC", m)
 	// inside the DATA read itself a failed read (the peer went away before the final dot)
 	// must surface as an error; otherwise the bytes read so far are delivered
